@@ -44,7 +44,7 @@ impl Prop for C17 {
         "C17"
     }
     fn rule(&self) -> &'static str {
-        "operation histories over {send v, recv, store, load, force (normal / failing lazies), spawn, resume, yield} on 2 channels (Int and Array Int payloads, every payload unique), 2 references, 6 lazies (2 normal, 2 failing, 1 whose computation forces itself, 1 whose computation yields twice so that its evaluating thread is suspended in the middle while other threads force it and wait) and up to 3 green threads; each history is compiled to a gluon IO program in which every operation appends what it observed (tagged with the operation's position) to a shared log, and the effect log of verif.fx records every run of a lazy's computation; an executable sequential model (FIFO queues, cells, thunk-once lazies, coroutine program counters) predicts the log exactly; `exhaustive`: every valid main sequence up to the tier's length over a 10-letter alphabet with two fixed child scripts; `lazy-waiters`: every order of up to 7 (quick) / 9 (thorough) resumes of three threads that all force the lazy whose evaluation suspends its thread; `random`: longer histories with random child scripts including nested resumes; a history that blocks forever (no CPU consumed for 8 s) is a violation; non-trivial = the history has at least one cross-thread interaction (a value sent, stored or forced by one thread and observed by another) or a failing force; distinct = history"
+        "operation histories over {send v, recv, store, load, force (normal / failing lazies), spawn, resume, yield} on 2 channels (Int and Array Int payloads, every payload unique), 2 references, 6 lazies (2 normal, 2 failing, 1 whose computation forces itself, 1 whose computation yields twice so that its evaluating thread is suspended in the middle while other threads force it and wait) and up to 3 green threads; each history is compiled to a gluon IO program in which every operation appends what it observed (tagged with the operation's position) to a shared log, and the effect log of verif.fx records every run of a lazy's computation; an executable sequential model (FIFO queues, cells, thunk-once lazies, coroutine program counters) predicts the log exactly; `exhaustive`: every valid main sequence up to the tier's length over a 10-letter alphabet with two fixed child scripts; `lazy-waiters`: every order of up to 7 (quick) / 8 (thorough) resumes of three threads that all force the lazy whose evaluation suspends its thread; `random`: longer histories with random child scripts including nested resumes; a history that blocks forever (no CPU consumed for 8 s) is a violation; non-trivial = the history has at least one cross-thread interaction (a value sent, stored or forced by one thread and observed by another) or a failing force; distinct = history"
     }
     fn assumptions(&self) -> Vec<String> {
         vec![
@@ -56,7 +56,7 @@ impl Prop for C17 {
         let l = tier.pick(5, 6);
         vec![
             Phase::new("exhaustive", exhaustive_count(l)).exhaustive(true).min_cases(tier.pick(10_000, 100_000)).timeouts(60, tier.pick(400, 3000)),
-            Phase::new("lazy-waiters", waiters_count(tier.pick(7, 9))).exhaustive(true).min_cases(tier.pick(3000, 25_000)).timeouts(60, tier.pick(400, 3000)),
+            Phase::new("lazy-waiters", waiters_count(tier.pick(7, 8))).exhaustive(true).min_cases(tier.pick(3000, 9000)).timeouts(60, tier.pick(400, 3000)),
             Phase::new("random", tier.pick(6000, 100_000)).min_cases(tier.pick(1000, 40_000)).timeouts(60, tier.pick(400, 3000)),
         ]
     }
